@@ -30,6 +30,7 @@ import (
 	"flag"
 	"fmt"
 	"math"
+	"math/big"
 	"os"
 	"path/filepath"
 	"sort"
@@ -37,6 +38,7 @@ import (
 	"strings"
 	"time"
 
+	voicurve "github.com/oasisprotocol/curve25519-voi/curve"
 	voied "github.com/oasisprotocol/curve25519-voi/primitives/ed25519"
 
 	"github.com/oasisprotocol/oasis-core/go/common/cbor"
@@ -110,7 +112,10 @@ type absTx struct {
 	Len      int
 	Env      bool
 	Addr     string // staking address (hex) of the claimed signer
-	SigValid bool
+	SigValid bool // the verdict the property needs: equation holds, A and R not of small order
+	EqValid  bool // the Ed25519 equation alone (small orders, non-canonical encodings tolerated)
+	SmallA   bool // the public key bytes decode to a small-order point
+	SmallR   bool // the R half of the signature decodes to a small-order point
 	Black    bool // the claimed public key is blacklisted
 	TxOK     bool
 	Nonce    uint64
@@ -247,36 +252,151 @@ func (r *ref) apply(a *absTx) (bool, bool) {
 // abstraction of raw bytes (harness-side decoders, independent signature check)
 // ---------------------------------------------------------------------------
 
-// indepValid recomputes the verdict without go/common/crypto/signature: the digest
-// SHA-512/256("oasis-core/consensus: tx for chain <chain>" || blob) is built here, and
-// Ed25519 is checked with the SAME primitive and the SAME acceptance rules as the
-// code under test (curve25519-voi, signature.go:75-82: small-order A and R rejected,
-// non-canonical encodings of A and R accepted). The standard library's
-// crypto/ed25519 has different rules (no small-order rejection): e.g. the all-zero
-// public key with the all-zero signature -- what an envelope whose CBOR map header
-// is flipped to "empty map" decodes to -- verifies there for one digest in four.
-// Such differences are counted (stdlibDiffers), they are not disagreements.
-var voiOptions = &voied.Options{
-	Verify: &voied.VerifyOptions{
-		AllowSmallOrderA:   false,
-		AllowSmallOrderR:   false,
-		AllowNonCanonicalA: true,
-		AllowNonCanonicalR: true,
-	},
-}
+// The independent verdict. Nothing of go/common/crypto/signature is used: the digest
+// SHA-512/256("oasis-core/consensus: tx for chain <chain>" || blob) is built here and
+// the acceptance rules are the harness' OWN, fixed ones -- those the property needs:
+//
+//	valid  :=  Ed25519 equation holds (cofactored, non-canonical encodings tolerated)
+//	           AND the public key A is not of small order
+//	           AND the commitment R is not of small order
+//
+// (with a small-order A the equation holds for every message once [8][S]B = [8]R:
+// such a "signature" proves nothing). The three components are computed separately
+// (curve25519-voi curve arithmetic / verification with everything tolerated) and are
+// also handed to the Coq model; the combination is cross-checked against one voi call
+// with the literal options below. The repository's defaultOptions are NOT imported:
+// a change of that literal must not change this oracle. Differences to the standard
+// library's crypto/ed25519 (no small-order rejection) are only counted.
+var (
+	ownOptions = &voied.Options{Verify: &voied.VerifyOptions{
+		AllowSmallOrderA: false, AllowSmallOrderR: false, AllowNonCanonicalA: true, AllowNonCanonicalR: true}}
+	permissiveOptions = &voied.Options{Verify: &voied.VerifyOptions{
+		AllowSmallOrderA: true, AllowSmallOrderR: true, AllowNonCanonicalA: true, AllowNonCanonicalR: true}}
+)
 
 var stdlibDiffers int
 
-func indepValid(pk signature.PublicKey, blob, sig []byte, chain string) bool {
+func isSmallOrder(enc []byte) bool {
+	var c voicurve.CompressedEdwardsY
+	if _, err := c.SetBytes(enc); err != nil {
+		return false
+	}
+	p := voicurve.NewEdwardsPoint()
+	if _, err := p.SetCompressedY(&c); err != nil {
+		return false
+	}
+	return p.IsSmallOrder()
+}
+
+func indepValid(pk signature.PublicKey, blob, sig []byte, chain string) (valid, eq, smallA, smallR bool) {
 	h := sha512.New512_256()
 	h.Write(muxdrv.TxRawContext(chain))
 	h.Write(blob)
 	d := h.Sum(nil)
-	v := voied.VerifyWithOptions(voied.PublicKey(pk[:]), d, sig, voiOptions)
-	if ed25519.Verify(ed25519.PublicKey(pk[:]), d, sig) != v {
+	eq = voied.VerifyWithOptions(voied.PublicKey(pk[:]), d, sig, permissiveOptions)
+	smallA = isSmallOrder(pk[:])
+	smallR = len(sig) == 64 && isSmallOrder(sig[:32])
+	valid = eq && !smallA && !smallR
+	if voied.VerifyWithOptions(voied.PublicKey(pk[:]), d, sig, ownOptions) != valid {
+		panic(fmt.Sprintf("harness: the composed verdict differs from voi with the harness' own options (pk %x sig %x)", pk[:], sig))
+	}
+	if ed25519.Verify(ed25519.PublicKey(pk[:]), d, sig) != valid {
 		stdlibDiffers++
 	}
-	return v
+	return
+}
+
+// The eight points of small order of edwards25519 and the non-canonical encodings of
+// those that have one (y >= p, or x = 0 with the sign bit set).
+var smallOrderEncodings = func() [][]byte {
+	hx := []string{
+		"0100000000000000000000000000000000000000000000000000000000000000", // identity (order 1)
+		"ecffffffffffffffffffffffffffffffffffffffffffffffffffffffffffff7f", // (0,-1) order 2
+		"0000000000000000000000000000000000000000000000000000000000000000", // order 4
+		"0000000000000000000000000000000000000000000000000000000000000080", // order 4
+		"26e8958fc2b227b045c3f489f2ef98f0d5dfac05d3c63339b13802886d53fc05", // order 8
+		"26e8958fc2b227b045c3f489f2ef98f0d5dfac05d3c63339b13802886d53fc85", // order 8
+		"c7176a703d4dd84fba3c0b760d10670f2a2053fa2c39ccc64ec7fd7792ac037a", // order 8
+		"c7176a703d4dd84fba3c0b760d10670f2a2053fa2c39ccc64ec7fd7792ac03fa", // order 8
+		// non-canonical encodings
+		"0100000000000000000000000000000000000000000000000000000000000080", // identity, sign bit set
+		"ecffffffffffffffffffffffffffffffffffffffffffffffffffffffffffffff", // (0,-1), sign bit set
+		"edffffffffffffffffffffffffffffffffffffffffffffffffffffffffffff7f", // y = p (= 0)
+		"edffffffffffffffffffffffffffffffffffffffffffffffffffffffffffffff", // y = p, sign bit set
+		"eeffffffffffffffffffffffffffffffffffffffffffffffffffffffffffff7f", // y = p+1 (= 1)
+		"eeffffffffffffffffffffffffffffffffffffffffffffffffffffffffffffff", // y = p+1, sign bit set
+	}
+	var out [][]byte
+	for _, h := range hx {
+		b, err := hex.DecodeString(h)
+		if err != nil || len(b) != 32 {
+			panic("bad small-order constant " + h)
+		}
+		if !isSmallOrder(b) {
+			panic("not a small-order encoding: " + h)
+		}
+		out = append(out, b)
+	}
+	return out
+}()
+
+// forgedSig returns a signature that satisfies the verification equation for EVERY
+// message under any small-order public key: S = s (0 or 1), R = [s]B + T, T = the
+// small-order point encoded by smallOrderEncodings[t] (T = identity and s = 1: R = B).
+func forgedSig(sVal int, t int) []byte {
+	var c voicurve.CompressedEdwardsY
+	if _, err := c.SetBytes(smallOrderEncodings[t]); err != nil {
+		panic(err)
+	}
+	T := voicurve.NewEdwardsPoint()
+	if _, err := T.SetCompressedY(&c); err != nil {
+		panic(err)
+	}
+	R := T
+	if sVal == 1 {
+		R = voicurve.NewEdwardsPoint().Add(voicurve.ED25519_BASEPOINT_POINT, T)
+	}
+	var rc voicurve.CompressedEdwardsY
+	rc.SetEdwardsPoint(R)
+	sig := make([]byte, 64)
+	copy(sig, rc[:])
+	if sVal == 0 && t >= 8 {
+		copy(sig, smallOrderEncodings[t]) // keep the non-canonical encoding of R
+	}
+	sig[32] = byte(sVal)
+	return sig
+}
+
+// envelope builds the raw bytes of (blob, pk, sig) without any signing.
+func envelope(blob, pk, sig []byte) []byte {
+	var st transaction.SignedTransaction
+	st.Blob = blob
+	copy(st.Signature.PublicKey[:], pk)
+	copy(st.Signature.Signature[:], sig)
+	return cbor.Marshal(&st)
+}
+
+// plusL replaces S by S + L (the group order): same residue, non-canonical scalar.
+func plusL(raw []byte) []byte {
+	var st transaction.SignedTransaction
+	if err := cbor.Unmarshal(raw, &st); err != nil {
+		return raw
+	}
+	le := st.Signature.Signature[32:]
+	be := make([]byte, 32)
+	for i := range le {
+		be[31-i] = le[i]
+	}
+	L, _ := new(big.Int).SetString("7237005577332262213973186563042994240857116359379907606001950938285454250989", 10)
+	v := new(big.Int).Add(new(big.Int).SetBytes(be), L)
+	if v.BitLen() > 256 {
+		return raw
+	}
+	nb := v.FillBytes(make([]byte, 32))
+	for i := range nb {
+		st.Signature.Signature[32+i] = nb[31-i]
+	}
+	return cbor.Marshal(&st)
 }
 
 func abstract(raw []byte, chain string) (*absTx, bool) {
@@ -287,7 +407,7 @@ func abstract(raw []byte, chain string) (*absTx, bool) {
 	}
 	a.Env = true
 	a.Addr = staking.NewAddress(st.Signature.PublicKey).String()
-	a.SigValid = indepValid(st.Signature.PublicKey, st.Blob, st.Signature.Signature[:], chain)
+	a.SigValid, a.EqValid, a.SmallA, a.SmallR = indepValid(st.Signature.PublicKey, st.Blob, st.Signature.Signature[:], chain)
 	a.Black = st.Signature.PublicKey.Equal(blackKey.Public())
 	real := st.Signature.Verify(transaction.SignatureContext, st.Blob)
 	agree := real == (a.SigValid && !a.Black) && a.Black == st.Signature.PublicKey.IsBlacklisted()
@@ -403,6 +523,17 @@ func newGenesis(p *plan) (*muxdrv.Genesis, error) {
 		ConsensusMinGasPrice: p.minGasPrice, MaxTxSize: p.maxTxSize,
 		Mutate: func(doc *genesis.Document) {
 			doc.Staking.Parameters.MinTransactBalance = u64q(p.minTransact)
+			// fund the addresses of the small-order "public keys" (every encoding): a forged
+			// envelope in their name would have something to spend
+			for _, enc := range smallOrderEncodings {
+				var pk signature.PublicKey
+				copy(pk[:], enc)
+				addr := staking.NewAddress(pk)
+				if doc.Staking.Ledger[addr] == nil {
+					doc.Staking.Ledger[addr] = &staking.Account{General: staking.GeneralAccount{Balance: u64q(500_000)}}
+					_ = doc.Staking.TotalSupply.Add(quantity.NewFromUint64(500_000))
+				}
+			}
 			for i := 0; i < nAccounts; i++ {
 				if n, ok := p.initNonce[i]; ok {
 					k := muxdrv.NewKey(fmt.Sprintf("verif/%d/acct/%d", p.seed, i))
@@ -555,7 +686,39 @@ func buildPlan(seed uint64, nblocks, ntx int, g *muxdrv.Genesis, p *plan) {
 			}
 			var add []genTx
 			k := r.Intn(100)
-			if sp := r.Intn(100); sp < 10 {
+			if sp := r.Intn(100); sp >= 10 && sp < 18 {
+				k = -2 // Ed25519 edge cases: small-order keys / commitments, non-canonical scalars
+				switch {
+				case sp < 15:
+					// universal forgery: small-order "public key" (funded in genesis), S in {0,1},
+					// R = [S]B + T for a small-order T -- the equation holds for every message
+					pkEnc := smallOrderEncodings[r.Intn(len(smallOrderEncodings))]
+					var pk signature.PublicKey
+					copy(pk[:], pkEnc)
+					addr := staking.NewAddress(pk)
+					tx := muxdrv.TxTransfer(rf.nonce[addr.String()], okFee(), attacker.addr, uint64(r.Range(100, 5000)))
+					sVal, t := r.Intn(2), r.Intn(len(smallOrderEncodings))
+					if r.Chance(40) {
+						sVal, t = 1, 0 // R = basepoint, S = 1
+					}
+					add = []genTx{{Raw: envelope(cbor.Marshal(tx), pkEnc, forgedSig(sVal, t)), Kind: fmt.Sprintf("smallorder-forged-S%d", sVal), NoExec: true}}
+				case sp < 16:
+					// genuine signature with S replaced by S + L
+					g0 := muxdrv.Sign(s.key, freshTx(s, refNonce(s)))
+					add = []genTx{{Raw: plusL(g0), Kind: "sig-S-plus-L", NoExec: true}}
+				case sp < 17:
+					// honest key, universal-forgery signature
+					pkb := s.key.Public()
+					add = []genTx{{Raw: envelope(cbor.Marshal(freshTx(s, refNonce(s))), pkb[:], forgedSig(1, r.Intn(8))), Kind: "forged-sig-honest-key", NoExec: true}}
+				default:
+					// genuine envelope whose R is replaced by a small-order encoding
+					g0 := muxdrv.Sign(s.key, freshTx(s, refNonce(s)))
+					var st transaction.SignedTransaction
+					_ = cbor.Unmarshal(g0, &st)
+					copy(st.Signature.Signature[:32], smallOrderEncodings[r.Intn(len(smallOrderEncodings))])
+					add = []genTx{{Raw: cbor.Marshal(&st), Kind: "small-order-R", NoExec: true}}
+				}
+			} else if sp < 10 {
 				k = -1 // spliced envelopes
 				switch {
 				case sp < 5 && len(validPool) > 0:
@@ -684,7 +847,7 @@ func buildPlan(seed uint64, nblocks, ntx int, g *muxdrv.Genesis, p *plan) {
 				}
 				blk = append(blk, t)
 			}
-			if k < 0 && len(add) == 1 && add[0].Kind == "fresh" && r.Chance(80) {
+			if k == -1 && len(add) == 1 && add[0].Kind == "fresh" && r.Chance(80) {
 				// ... and now its spliced copy, in the same block
 				v := validPool[len(validPool)-1]
 				t := genTx{Raw: splice(v.raw, v.s), Kind: "spliced", NoExec: true}
@@ -838,7 +1001,7 @@ func runHistory(seed uint64, nblocks, ntx, upto int, drop [][2]int) (out *runOut
 		for i, raw := range raws {
 			a, agree := abstract(raw, chain)
 			if !agree {
-				viol(b, fmt.Sprintf("tx %d (%s): the real verifier disagrees with the independent verdict (Ed25519 over SHA-512/256(tx context for this chain || blob), and the key is not blacklisted)", i, gts[i].Kind), map[string]any{"tx": hex.EncodeToString(raw)})
+				viol(b, fmt.Sprintf("tx %d (%s): the real verifier disagrees with the independent verdict (harness rules: equation over SHA-512/256(tx context for this chain || blob) holds=%v, public key of small order=%v, R of small order=%v, key blacklisted=%v => valid=%v)", i, gts[i].Kind, a.EqValid, a.SmallA, a.SmallR, a.Black, a.SigValid && !a.Black), map[string]any{"tx": hex.EncodeToString(raw)})
 			}
 			abs = append(abs, a)
 			if a.Env {
@@ -1063,7 +1226,7 @@ func coqBlock(p *plan, tl []string, pre, post map[string][2]string, abs []*absTx
 		if a.Env {
 			pk = idOf(a.Addr)
 		}
-		ks = append(ks, fmt.Sprintf("{| k_len := %d; k_env := %s; k_pk := %d; k_black := %s; k_sigvalid := %s; k_tx := %s |}", a.Len, coqout.Bool(a.Env), pk, coqout.Bool(a.Black), coqout.Bool(a.SigValid), txs))
+		ks = append(ks, fmt.Sprintf("{| k_len := %d; k_env := %s; k_pk := %d; k_black := %s; k_small_a := %s; k_small_r := %s; k_sigvalid := %s; k_tx := %s |}", a.Len, coqout.Bool(a.Env), pk, coqout.Bool(a.Black), coqout.Bool(a.SmallA), coqout.Bool(a.SmallR), coqout.Bool(a.EqValid), txs))
 	}
 	params := fmt.Sprintf("{| p_max_tx_size := %d; p_min_transact := %d; p_min_transfer := %d; p_gas_byte := %d; p_gas_transfer := %d; p_gas_burn := %d; p_min_gas_price := %d; p_reserved := [%d] |}",
 		p.maxTxSize, p.minTransact, minTransfer, gasByte, gasTransfer, gasBurn, p.minGasPrice, idOf(resvKey.Address().String()))
@@ -1234,8 +1397,8 @@ func bitOf(d SweepDesc, i int) int {
 }
 
 func sweepMain(seed uint64, out string, stride, batch int, replay *SweepDesc) {
-	hdr := "From Verif Require Import Lib.Base Auth.Model Auth.Corr Gen.SigContexts.\n"
-	w := coqout.NewWriter(out, hdr, "run_block chain_separator tx_context", "kout_eqb", 4)
+	hdr := "From Verif Require Import Lib.Base Auth.Model Auth.Corr Gen.SigContexts Gen.SigOptions.\n"
+	w := coqout.NewWriter(out, hdr, "run_block chain_separator tx_context allow_small_order_A allow_small_order_R", "kout_eqb", 4)
 	sum := coqout.NewSummary("one case = one block of a fresh chain holding single-bit alterations of ONE signed staking.Transfer envelope (every stride-th bit position; stride 1 = all), optionally followed by the original; alterations that the harness' decoder maps to a different or no envelope are batched, those it maps to the same (blob, key, signature) get a chain of their own; non-trivial = the block contains at least one alteration; distinct = distinct bit sets")
 	t0 := time.Now()
 	var descs []SweepDesc
@@ -1443,7 +1606,7 @@ func ctxMain(seed uint64, out string, n int, replay *CtxDesc) {
 	if replay != nil && replay.Index < 0 {
 		replay = nil // a registry cross-check finding: run the whole stream again
 	}
-	hdr := "From Verif Require Import Lib.Base Auth.Model Auth.Corr Gen.SigContexts.\n"
+	hdr := "From Verif Require Import Lib.Base Auth.Model Auth.Corr Gen.SigContexts Gen.SigOptions.\n"
 	w := coqout.NewWriter(out, hdr, "run_ctx chain_separator contexts", "obytes_eqb", 400)
 	sum := coqout.NewSummary("one case = (registered context of the regenerated list, optional WithSuffix argument of length 0/1/64/max/max+1/random, chain context unset or of length 1..64); non-trivial = PrepareSignerContext returned bytes; distinct = distinct (context, suffix, chain) triples")
 	ctxs, err := loadContexts()
@@ -1708,8 +1871,8 @@ func main() {
 		sweepMain(*seed, *out, *stride, *batch, rs)
 		return
 	}
-	hdr := "From Verif Require Import Lib.Base Auth.Model Auth.Corr Gen.SigContexts.\n"
-	w := coqout.NewWriter(*out, hdr, "run_block chain_separator tx_context", "kout_eqb", 12)
+	hdr := "From Verif Require Import Lib.Base Auth.Model Auth.Corr Gen.SigContexts Gen.SigOptions.\n"
+	w := coqout.NewWriter(*out, hdr, "run_block chain_separator tx_context allow_small_order_A allow_small_order_R", "kout_eqb", 12)
 	sum := coqout.NewSummary("one case = one block of a generated history (pre nonces/balances of the tracked accounts, every byte string of the block abstracted by the harness, observed result classes and post nonces/balances); histories of -blocks blocks over 9 signers (6 funded, 1 nearly empty, 2 unfunded; genesis nonces incl. 2^64-1-k and 2^63-1) with parameters MinTransactBalance {0,100}, MinGasPrice {0,2}, MaxTxSize {32768,420} and restarts of the on-disk replica; non-trivial = at least two transactions of the block passed authentication and at least one did not; distinct = distinct (seed, block)")
 	type job struct {
 		seed          uint64
